@@ -9,6 +9,8 @@ CONSTANTS
   ThinIdent = 20
   ThinDov = 24
   ThinFit = 120
+  ThinDec = 120
+  LongN = {41, 61}
   Emit = TRUE
 INVARIANTS Theorems Vector
 CHECK_DEADLOCK FALSE
